@@ -5,7 +5,9 @@
 # /var/tmp/drill-vh-auth/, harness copy with /repo/ paths rewritten, own target dir).  The only
 # difference: after copying /verif/bin it appends the vh-auth properties to the copied
 # bin/properties.map, so that the drills can be run before /verif/bin/properties.map has been
-# regenerated from vh-auth/checks.json.  Once it has, `bin/drill vh-auth <patch> Cxx` is equivalent.
+# regenerated from vh-auth/checks.json, and it merges vh-auth/known_findings.fragment.json into the
+# copied known_findings.json (the checks fire on the unchanged tree; with the baseline keys known,
+# "exit=1" means the mutation produced a key that the unchanged tree does not produce).
 set -u
 patch="${1:?patch file or --none}"; shift
 BASE="/var/tmp/drill-vh-auth"
@@ -37,6 +39,15 @@ done
 grep -rl '/repo/' "$BASE/verif/harness" --include=Cargo.toml --include='*.rs' 2>/dev/null | xargs -r sed -i "s|/repo/|$BASE/repo/|g"
 sed -i "s|^target-dir = .*|target-dir = \"$BASE/target\"|" "$BASE/verif/harness/.cargo/config.toml"
 cp /verif/harness/Cargo.lock "$BASE/verif/harness/Cargo.lock"
+# baseline findings of the vh-auth checks count as known in the drill copy: exit 1 = a NEW key
+python3 - "$BASE/verif/known_findings.json" /verif/harness/vh-auth/known_findings.fragment.json <<'PY'
+import json, sys
+dst, frag = sys.argv[1], sys.argv[2]
+d = json.load(open(dst)); f = json.load(open(frag))
+have = {(x.get("property"), x.get("key")) for x in d.get("findings", [])}
+d.setdefault("findings", []).extend(x for x in f["findings"] if (x["property"], x["key"]) not in have)
+json.dump(d, open(dst, "w"), indent=1)
+PY
 mkdir -p "$BASE/verif/evidence" "$BASE/verif/replays"
 rc=0
 for id in "${ids[@]}"; do
